@@ -851,6 +851,40 @@ where
             faults.push(("proof-path-leaf-index".into(), cm0.clone(), z.clone(), value, pf));
         }
     }
+    // paths of OTHER leaves that carry an identical column: only the leaf-index test can tell them apart.
+    // Built on the zero polynomial, whose encoded matrix has all columns equal.
+    {
+        use crate::mirror::MLinState;
+        use ark_crypto_primitives::merkle_tree::MerkleTree;
+        let zp: LPoly<S> = LabeledPolynomial::new("p".into(), S::gen_poly(&cfg, Shape::Zero, 0, rng), None, None);
+        if let Ok(cz) = commit::<S>(&w.ck, std::slice::from_ref(&zp), 1) {
+            let mut r2 = crate::probe::mon_rng(1);
+            let opened = attempt(|| PcOf::<S>::open(&w.ck, [&zp], cz.comms.iter(), &z, &mut crate::probe::sponge::<LFr>(&pre), cz.states.iter(), Some(&mut r2)));
+            if let (Ok(pfz), Ok(cmz), Ok(stz)) = (opened, convert::<_, MLinCommitment>(cz.comms[0].commitment()), convert::<_, MLinState<LFr>>(&cz.states[0])) {
+                let bpz: BatchProofOf<S> = vec![pfz].into();
+                if let Ok(mpz) = convert::<_, Vec<Vec<MLinProof<LFr>>>>(&bpz) {
+                    let mut pf = mpz[0][0].clone();
+                    let n_ext = cmz.metadata.n_ext_cols;
+                    let mut leaves = stz.leaves.clone();
+                    leaves.resize(leaves.len().next_power_of_two(), Vec::new());
+                    if let Ok(tree) = MerkleTree::<MtParams>::new(&(), &(), leaves) {
+                        let sft = range(rng, 1, n_ext - 1);
+                        let mut changed = false;
+                        for path in pf.opening.paths.iter_mut() {
+                            let j = (path.leaf_index + sft) % n_ext;
+                            if let Ok(np) = tree.generate_proof(j) {
+                                *path = np;
+                                changed = true;
+                            }
+                        }
+                        if changed {
+                            faults.push(("proof-paths-of-other-equal-leaves".into(), cmz.clone(), z.clone(), LFr::zero(), pf));
+                        }
+                    }
+                }
+            }
+        }
+    }
     for (name, cm, zz, val, pf) in faults {
         let lc: Result<CommOf<S>, String> = convert(&cm);
         let lp: Result<BatchProofOf<S>, String> = convert(&vec![vec![pf.clone()]]);
